@@ -322,7 +322,10 @@ class Tar:
 
 
 # ---- random trees (code -> spec) ----------------------------------------------------------------
-NAMES = ["a", "b", "c", "d e", "été", "f.txt", "-x", "~", "L" * 120, "lib", "lib64", "usr", "中"]
+# names are opaque path components; awkward ones: leading / trailing / only dots (".x", "..x", "...", "x."), blanks,
+# a leading dash, long and non-ASCII names.  ("." and ".." themselves are not names.)
+NAMES = ["a", "b", "c", "d e", "été", "f.txt", "-x", "~", "L" * 120, "lib", "lib64", "usr", "中",
+         ".hidden", "..data", "...", "....", ".a.", "a.", ".-", " x", "y ", ".config"]
 MODES = [0o644, 0o755, 0o600, 0o4755, 0o2750, 0o1777, 0, 0o7777, 0o444]
 IDS = [0, 0, 1, 250, 1000, 65534, 2097151, 2097152, 3000000]
 SECS = [0, 1, 999999999, 1000000000, 1700000000, 2147483647]
